@@ -771,6 +771,59 @@ Section Keys.
     rewrite (Hfun _ _ _ _ _ E1 E2). auto.
   Qed.
 
+  (** ** no error without [remove_empty]: [tune_token] defined on every type
+      key of the profile is all that is needed *)
+  Lemma shex_class_eq thr C ce :
+    shex_class fa cfg thr C ce =
+    let cnt := cnt_of C (fst ce) in
+    match select_valid fa cfg cnt (dirl false (class_sorted thr cnt ce)) with
+    | inr e => inr e
+    | inl vd =>
+      match select_valid fa cfg cnt (dirl true (class_sorted thr cnt ce)) with
+      | inr e => inr e
+      | inl vi =>
+        match tune fa cfg cnt (vd ++ vi) with
+        | inr e => inr e
+        | inl stmts => inl {| sh_name := shape_name (x_shapes_ns cfg) (fst ce); sh_class := fst ce;
+                              sh_n := cnt; sh_stmts := stmts |}
+        end
+      end
+    end.
+  Proof. reflexivity. Qed.
+
+  Definition tokens_ok (ce : str * centry) : Prop :=
+    forall d p k ck n, pd_entry (class_pd ce d) p k ck n -> tune_token (x_ns cfg) k <> None.
+
+  Theorem shex_class_total thr C ce : tokens_ok ce -> exists sh, shex_class fa cfg thr C ce = inl sh.
+  Proof.
+    intros Hok. rewrite shex_class_eq. cbv zeta. set (cnt := cnt_of C (fst ce)).
+    assert (Hl : forall d x, In x (dirl d (class_sorted thr cnt ce)) -> cm_ok cfg x).
+    { intros d x Hx. apply dirl_In in Hx. destruct Hx as (p & k & ck & n & He & _ & ->).
+      right. cbn. apply (Hok d p k ck n He). }
+    destruct (select_valid_total_cm fa cfg cnt _ (Hl false)) as [vd [-> Hvd]].
+    destruct (select_valid_total_cm fa cfg cnt _ (Hl true)) as [vi [-> Hvi]].
+    destruct (tune_total fa cfg cnt (vd ++ vi)) as [stmts ->]; [|eexists; reflexivity].
+    intros _ x Hx. apply comment_of_total_iff. apply in_app_or in Hx. destruct Hx; auto.
+  Qed.
+
+  Lemma map_err_total {A B E} (f : A -> B + E) l :
+    (forall x, In x l -> exists y, f x = inl y) -> exists out, map_err f l = inl out.
+  Proof.
+    induction l as [|x l IH]; intros H; [eexists; reflexivity|]. cbn.
+    destruct (H x (or_introl eq_refl)) as [y ->].
+    destruct IH as [ys ->]; [intros z Hz; apply H; right; exact Hz | eexists; reflexivity].
+  Qed.
+
+  Theorem shex_total thr P C :
+    x_remove_empty cfg = false -> (forall ce, In ce P -> tokens_ok ce) ->
+    exists shapes, shex fa cfg thr P C = inl shapes.
+  Proof.
+    intros Hre Hok. unfold shex.
+    destruct (map_err_total (shex_class fa cfg thr C) P) as [shapes ->].
+    - intros ce Hce. apply shex_class_total, Hok, Hce.
+    - rewrite Hre. eexists; reflexivity.
+  Qed.
+
   (** ** [clean_shapes] in detail *)
   Lemma empty_names_In l nm :
     In nm (empty_names l) <-> exists e, In e l /\ sh_stmts e = [] /\ sh_name e = nm.
